@@ -151,6 +151,56 @@ func (t *tamperer) try(class, detail string, rec *consensusproto.RawRecordWithId
 	}
 }
 
+// differential offers rec to throw-away copies of the validating and the non-validating list of every observer: if
+// the validating list accepts it, the non-validating one (keep-only-ours decode) must accept it too and both must show
+// the same state, including the observer's own key visibility.
+func (t *tamperer) differential(class, detail string, rec *consensusproto.RawRecordWithId) {
+	t.e.c.Distinct("distinct", "mut|"+class+"|"+t.lastKind)
+	t.classes[class]++
+	byObs := map[string]map[lkind]*target{}
+	var order []string
+	for _, tg := range t.targets {
+		if byObs[tg.o.class] == nil {
+			byObs[tg.o.class] = map[lkind]*target{}
+			order = append(order, tg.o.class)
+		}
+		byObs[tg.o.class][tg.k] = tg
+	}
+	for _, oc := range order {
+		tv, tn := byObs[oc][V], byObs[oc][N]
+		if tv == nil || tn == nil || t.broken {
+			continue
+		}
+		cv, cn := t.mkTarget(V, tv.o), t.mkTarget(N, tn.o)
+		if cv == nil || cn == nil {
+			return
+		}
+		t.e.c.Count("evaluations", 2)
+		var ev, en error
+		if p, what := vk.Recover(func() { ev = cv.l.AddRawRecord(rec) }); p {
+			ev = fmt.Errorf("panic: %s", vk.PanicSite(what))
+		}
+		if p, what := vk.Recover(func() { en = cn.l.AddRawRecord(rec) }); p {
+			en = fmt.Errorf("panic: %s", vk.PanicSite(what))
+		}
+		key := "tamper:" + class + ":last=" + t.lastKind + ":observer=" + oc
+		if ev != nil {
+			t.e.c.Count("info_rejected:"+class+":validating", 1)
+			t.unchanged(cv, class, detail, ev)
+			continue
+		}
+		t.e.c.Count("info_accepted_legitimately:"+class+":validating", 1)
+		if en != nil {
+			t.e.c.Violation(key+":accepted-by-validating-rejected-by-non-validating", fmt.Sprintf("history %s, observer %s: %s (%s) is accepted by the validating list but the non-validating list says %v", t.h, oc, class, detail, en), t.h.replay())
+			continue
+		}
+		pv, pn := project(t.h.sim, cv.l), project(t.h.sim, cn.l)
+		if f, got, want := diff(append(append([]string{}, pn.common...), pn.keys...), append(append([]string{}, pv.common...), pv.keys...)); f != "" {
+			t.e.c.Violation(key+":full-and-partial-decode-differ:"+f, fmt.Sprintf("history %s, observer %s: after %s (%s) the keep-only-ours list shows {%s}, the fully decoding list {%s}", t.h, oc, class, detail, got, want), t.h.replay())
+		}
+	}
+}
+
 const b32 = "abcdefghijklmnopqrstuvwxyz234567"
 
 func withId(raw *consensusproto.RawRecord) *consensusproto.RawRecordWithId { return WithId(raw) }
@@ -369,6 +419,56 @@ func (e *env) tamper(h *hist, sweep bool, ref [][]string) {
 		if other.Name == before.Owners[0] || other.Name == "W" {
 			// signed by the named account itself: simply that account's own record (valid or not by its permissions)
 			t.try("identity-replaced-signed-by-that-account", "identity := "+other.Name, t.remake(r2, other.Keys.SignKey, rr.AcceptorTimestamp), false, false)
+		}
+	}
+	// every identity inside the record's content written in another encoding of the same key (the zero-valued key type
+	// spelled out), re-signed by the author: whatever a list makes of it, the same observer must see the same thing
+	// with the full and with the keep-only-ours decode
+	if data := (&aclrecordproto.AclData{}); data.UnmarshalVT(rec.Data) == nil {
+		respell := func(b []byte) []byte {
+			if len(b) > 0 && b[0] == 0x12 {
+				return append([]byte{0x08, 0x00}, b...)
+			}
+			return b
+		}
+		touched := 0
+		rkc := func(ch *aclrecordproto.AclReadKeyChange) {
+			if ch == nil {
+				return
+			}
+			for _, ak := range ch.AccountKeys {
+				if nb := respell(ak.Identity); len(nb) != len(ak.Identity) {
+					ak.Identity = nb
+					touched++
+				}
+			}
+		}
+		for _, cv := range data.AclContent {
+			rkc(cv.GetReadKeyChange())
+			if v := cv.GetAccountRemove(); v != nil {
+				rkc(v.ReadKeyChange)
+			}
+			if v := cv.GetInviteRevoke(); v != nil {
+				_ = v
+			}
+			if v := cv.GetAccountsAdd(); v != nil {
+				for _, a := range v.Additions {
+					if nb := respell(a.Identity); len(nb) != len(a.Identity) {
+						a.Identity = nb
+						touched++
+					}
+				}
+			}
+			if v := cv.GetRequestAccept(); v != nil {
+				if nb := respell(v.Identity); len(nb) != len(v.Identity) {
+					v.Identity = nb
+					touched++
+				}
+			}
+		}
+		if nd, err := data.MarshalVT(); err == nil && touched > 0 {
+			r2 := &consensusproto.Record{PrevId: rec.PrevId, Identity: rec.Identity, Data: nd, Timestamp: rec.Timestamp}
+			t.differential("content-identities-in-another-encoding", fmt.Sprintf("%d identities", touched), t.remake(r2, author.Keys.SignKey, rr.AcceptorTimestamp))
 		}
 	}
 	// acceptor fields (id recomputed so that the CID matches): required by the non-validating list only
